@@ -19,7 +19,7 @@ RULES = ["V-ROOT", "V-CHILD", "V-FIRST", "V-SECOND", "V-IOROW", "V-PORTS", "V-KI
          "V-INTERIOR", "V-NOREL", "V-PARENT", "V-OP", "V-EDGE-NODE"]
 FEATS = ["ext-edge", "dom-edge", "static-ext-edge", "explicit-order-edge", "partial-multi-output",
          "conditional", "cond-3+cases", "cond-linear", "tail-loop", "tail-loop-rest", "cfg-diamond",
-         "cfg-loop", "cfg-early", "cfg-asymmetric-branch", "poly-call", "poly-call-arity-change",
+         "cfg-loop", "cfg-early", "cfg-asymmetric-branch", "cfg-3-way-branch", "cfg-selfloop", "poly-call", "poly-call-arity-change",
          "mode-insert", "recursive-call", "const", "depth-3", "nested-funcdefn", "load-function",
          "call-indirect", "metadata", "shared-partial-op"]
 META = {
